@@ -1,6 +1,6 @@
 import HsVerif.Proofs.ReplicaViewFrames
-/-! View advancement (C07): the view only moves by +1, each time on a verified certificate of a
-view at least the current one, and each move is recorded / signalled. -/
+/-! View advancement (C07): the view only moves forward, to the view after a verified certificate of a
+view at least the current one (`EnterViewAfter`), and each move is recorded / signalled. -/
 open Std.Do
 set_option mvcgen.warning false
 set_option linter.unusedSimpArgs false
@@ -80,11 +80,17 @@ def GRec.advFrom : GRec → Nat
   | .adv f _ _ => f
   | _ => 0
 
-/-- invariant on (advancement records, current view, high QC): the view is 1 + the number of
-advancements, the k-th advancement left view k, and each was backed by a verified certificate of
-a view at least the one that was left -/
+/-- the view entered by an advancement: the one after the certificate's (`EnterViewAfter`) -/
+def GRec.advTo : GRec → Nat
+  | .adv _ cv _ => cv + 1
+  | _ => 0
+
+/-- invariant on (advancement records, current view, high QC): the advancement records form a chain
+from view 1 to the current view (the first one left view 1, each next one left the view the previous one
+entered, the last one entered the current view; the view entered is the certified view + 1), and each was
+backed by a verified certificate of a view at least the one that was left -/
 def InvA (k : Keys) (c : RCfg) (x : List GRec × Nat × QC) : Prop :=
-  1 ≤ x.2.1 ∧ x.1.map GRec.advFrom = List.range' 1 (x.2.1 - 1) ∧
+  1 ≤ x.2.1 ∧ x.1.map GRec.advFrom ++ [x.2.1] = 1 :: x.1.map GRec.advTo ∧
   ∀ f cv t, GRec.adv f cv t ∈ x.1 → f ≤ cv ∧ Evidence k c cv
 
 theorem InvA_init (k : Keys) (c : RCfg) : InvA k c ([], 1, genesisQC) := by
@@ -92,15 +98,12 @@ theorem InvA_init (k : Keys) (c : RCfg) : InvA k c ([], 1, genesisQC) := by
 
 theorem InvA_adv (k : Keys) (c : RCfg) (g : List GRec) (v cv : Nat) (t : Bool) (q q' : QC)
     (h : InvA k c (g, v, q)) (hle : v ≤ cv) (he : Evidence k c cv) :
-    InvA k c (g ++ [.adv v cv t], v + 1, q') := by
+    InvA k c (g ++ [.adv v cv t], cv + 1, q') := by
   obtain ⟨h1, h2, h3⟩ := h
   simp only at h1 h2 h3
   refine ⟨by simp, ?_, ?_⟩
-  · simp only [List.map_append, h2, List.map_cons, GRec.advFrom, List.map_nil, Nat.add_sub_cancel]
-    obtain ⟨w, rfl⟩ : ∃ w, v = w + 1 := ⟨v - 1, by omega⟩
-    simp only [Nat.add_sub_cancel, List.range'_1_concat]
-    congr 2
-    omega
+  · simp only [List.map_append, List.map_cons, GRec.advFrom, GRec.advTo, List.map_nil]
+    rw [h2]; simp
   · intro f cv' t' hm
     simp only [List.mem_append, List.mem_singleton] at hm
     rcases hm with hm | hm
@@ -112,7 +115,7 @@ theorem InvA_hqc (k : Keys) (c : RCfg) (g : List GRec) (v : Nat) (q q' : QC)
 
 theorem InvA_step (k : Keys) (c : RCfg) (g : List GRec) (v : Nat) (q q' : QC) (view : Nat) (t : Bool)
     (h : InvA k c (g.filter GRec.isAdv, v, q)) (hle : v ≤ view) (he : view = 0 ∨ Evidence k c view) :
-    InvA k c ((g ++ [GRec.adv v view t]).filter GRec.isAdv, v + 1, q') := by
+    InvA k c ((g ++ [GRec.adv v view t]).filter GRec.isAdv, view + 1, q') := by
   have h1 : 1 ≤ v := h.1
   have he' : Evidence k c view := by
     rcases he with he | he
